@@ -88,6 +88,8 @@ class CSRMachine(Machine):
         self.serial = 0
         self.state_hook = None  # callable(ssa, env, machine) for C07
         self.call_results = None
+        self.last: dict[str, object] = {}  # acc -> StateHandle of the most recent setup (None after havoc)
+        self.link_errors: list = []
 
     def _acc(self, acc):
         if acc not in self.regs:
@@ -98,6 +100,7 @@ class CSRMachine(Machine):
     def havoc(self):
         self.ncalls += 1
         self.havoc_now = Havoc(self.ncalls)
+        self.last.clear()
         for acc in self.regs:
             self.regs[acc] = {}
             self.default[acc] = self.havoc_now
@@ -121,8 +124,14 @@ class CSRMachine(Machine):
                 r[name] = v
             if self.record_setups:
                 self.trace.append(("setup", acc, tuple(zip(names, operands[:nvals]))))
+            if len(operands) > nvals:
+                # in_state must be the state produced by the setup that really precedes this one
+                if self.last.get(acc) is not operands[nvals]:
+                    self.link_errors.append((acc, repr(operands[nvals]), repr(self.last.get(acc))))
             self.serial += 1
-            return [StateHandle(acc, self.serial)]
+            h = StateHandle(acc, self.serial)
+            self.last[acc] = h
+            return [h]
         if n == "accfg.launch":
             acc = op.accelerator.data
             r = self._acc(acc)
@@ -141,6 +150,7 @@ class CSRMachine(Machine):
             self.regs[acc] = {}
             self.ncalls += 1
             self.default[acc] = Havoc(self.ncalls)
+            self.last[acc] = None
             return []
         if n == "test.op" or n.startswith("test."):
             # opaque op: an event; by has_accfg_effects' rules it does not touch accelerator state unless annotated full
